@@ -44,6 +44,25 @@ func regE(id, title string, quick int64) {
 		Assume: []string{"combination.CalculatePower orders five-card hands correctly (C03, not simulated)", "the deck is pinned after Start() by overwriting Meta.Deck before any card is dealt", "operations outside the Game interface's Operations/Actions groups are not called"}}
 }
 
+var wanted = map[string][]string{
+	"C02": {"showdown-tie", "tie-in-multi-level-pot", "odd-chip", "three-or-more-side-pots", "folded-contributor", "c02-independent-strengths"},
+	"C04": {"c04-cross-product", "heads-up-open", "pass-only-seat-on-turn"},
+	"C05": {"all-in-run-out", "ended-by-folds", "round-closed-by-betting", "showdown"},
+	"C06": {"staller-action", "invalid-config.one-seat", "invalid-config.zero-bankroll", "invalid-config.negative-bankroll", "invalid-config.no-dealer", "invalid-config.no-deck"},
+	"C10": {"four-hole-hand-checked", "short-deck-A6789-leniency"},
+	"C11": {"call-completed-to-bb", "stack-between-call-and-min-raise", "stack-equals-wager"},
+	"C12": {"amount-negative", "amount-zero", "raise-at-or-above-min", "raise-below-wager", "raise-exactly-min", "raise-undersized"},
+	"C13": {"ante-all-in", "blind-all-in-or-exact", "dead-small-blind", "dealer-blind"},
+	"C15": {"view-after-close"},
+	"C16": {"folded-contributor-in-pot", "published-3+-pots"},
+	"C08": {"newcomer-scenario", "newcomer-button-passed", "heads-up-positions", "first-dealer"},
+	"C17": {"first-dealer", "next-refused", "next-with-fewer-than-two-playable-before"},
+	"C18": {"concurrent-burst"},
+	"C09": {"sync-of-unknown-or-broken-table", "registration-after-deadline", "table-broken", "release-requested", "players-received-on-sync"},
+	"C19": {"initial-allocation-table"},
+	"C20": {"table-broken", "settling-needed-more-than-one-sweep"},
+}
+
 func init() {
 	regE("C01", "chips conserved", 3000)
 	regE("C02", "showdown pays the right players", 4000)
@@ -59,6 +78,11 @@ func init() {
 	regE("C15", "views do not leak", 1500)
 	regE("C16", "published pots partition the chips", 4000)
 	registerOther()
+	for id, w := range wanted {
+		if props[id] != nil {
+			props[id].Probes = w
+		}
+	}
 }
 
 func replayDir() string {
